@@ -445,7 +445,7 @@ def check_family(prog, rep, rule, prefixes, exclude=()):
                         n += 1
                         odd = [e for e, v in vals.items() if v != cnts[0][0]]
                         construct = "%s.%s -> %s [%s]" % (k, mn, key[0][:60], p_)
-                        if len(cnts) == 2 and len(odd) == 1:
+                        if len(cnts) == 2 and len(odd) == 1 and vals[odd[0]] is not None:      # (None: handed over positionally to a callee that does not resolve - not judged)
                             f_, call_, _ = per[odd[0]]
                             rep.saw(f_)
                             rep.violate(rule, construct, "the %s variant hands `%s` to `%s` where the other %d variants of the family hand on %s: the variant computes on other data than "
